@@ -115,6 +115,18 @@ def gen_cases(rng, n_random, tier):
             else:
                 cur[6] = max(0, cur[6] + rng.choice([-2000, -1, 1, 999, NS, 6 * NS, 2000 * NS]))
             add(mk(*cur), "chain")
+    # (f) what a restarted daemon publishes before it has heard from chronyd (all-zero instants, bound 0,
+    # Unknown - also what a zeroed record looks like), read by a client that has just been answering from
+    # a trusted record, and the other way round
+    for _ in range(max(20, n_random // 50)):
+        as_of, void, bound, drift = rand_record()
+        as_of += NS
+        real = rng.randrange(0, 2 * 10 ** 9) * NS + rng.randrange(NS)
+        mono = as_of + rng.choice([0, rng.randrange(4 * NS), 5 * NS + rng.randrange(100 * NS)])
+        add(mk(as_of, as_of + 1000 * NS, bound, drift, rng.choice([1, 2]), real, mono), "placeholder")
+        for st in rng.sample([0, 0, 1, 2], 2):
+            add(mk(0, rng.choice([0, 1000 * NS]), rng.choice([0, 0, bound]), drift, st, real + 1, mono + rng.choice([0, 1, NS])), "placeholder")
+        add(mk(as_of, as_of + 1000 * NS, bound, drift, rng.choice([0, 1, 2]), real + 2, mono + 2 * NS), "placeholder")
     edge_ts = [-SECMAX * NS, SECMAX * NS + NS - 1, 0, -1, NS - 1]
     for a in edge_ts:
         for m in edge_ts:
@@ -290,6 +302,17 @@ def run_property(pid, res, proofs_ok, proofs_why, only=None):
                 continue
             if ri["kind"] == "other":
                 diffs.append({"case": line, "profile": prof, "impl": impl[i], "model": model[i], "note": "shm crate and client library disagree"})
+                # what the client library (one reader for the whole run) handed out, in either of the two
+                # identical calls, is judged as well
+                for part in ("client=[", "same-call-repeated=["):
+                    if part not in impl[i]:
+                        continue
+                    rc_ = parse_result(impl[i].split(part, 1)[1].split("]")[0])
+                    why = pred(k, rc_) if rc_["kind"] in ("ok", "malformed", "causality") else []
+                    if why:
+                        bad.append({"case": line, "profile": prof + (" (client library)" if part[0] == "c" else " (client library, the same call made again)"),
+                                    "impl": impl[i], "model": model[i], "why": why, "calls_before": lines[max(0, i - 3):i]})
+                        break
                 continue
             if prof == "release" and rm["kind"] == "panic":
                 continue   # overflow wraps silently in release; only the debug build is compared there
@@ -298,7 +321,8 @@ def run_property(pid, res, proofs_ok, proofs_why, only=None):
                     diffs.append({"case": line, "profile": prof, "impl": impl[i], "model": model[i]})
             why = pred(k, ri)
             if why:
-                bad.append({"case": line, "profile": prof, "impl": impl[i], "model": model[i], "why": why})
+                # the calls made just before on the same client: what it remembers may matter
+                bad.append({"case": line, "profile": prof, "impl": impl[i], "model": model[i], "why": why, "calls_before": lines[max(0, i - 3):i]})
             if tag == "pair1" and pid == "C05" and (prof != "C library" or (i - 1) in c_out):
                 k0 = parse_case(lines[i - 1])
                 why = pred_pair(k0, parse_result(impl[i - 1]), k, ri)
@@ -338,10 +362,17 @@ def replay_property(pid, res, path):
         lines = r["first_differences"][0]["case"]
     if isinstance(lines, str):
         lines = [lines]
+    before = case.get("calls_before", []) if isinstance(case, dict) else []
     model = c.run_model(lines)
     rc = 0
-    for prof in ("debug", "release"):
-        impl = c.run_lines(c.build_harness(prof)[0], lines)
+    from props import _files
+    for prof in ("debug", "release", "C library"):
+        if prof == "C library":
+            if not all(in_range(parse_case(ln)) for ln in before + lines):
+                continue
+            impl = c.run_lines_hang_aware(_files.build_c_driver(), before + lines, "hang", args=())[len(before):]
+        else:
+            impl = c.run_lines_hang_aware(c.build_harness(prof)[0], before + lines, "hang")[len(before):]
         for ln, i, m in zip(lines, impl, model):
             why = PRED[pid](parse_case(ln), parse_result(i))
             print("case  %s\n %s impl  %s\n model %s\n predicate: %s" % (ln, prof, i, m, why or "holds"))
